@@ -69,6 +69,7 @@ type HarnessRun struct {
 	errs    []string
 	funcs   map[string]int // function -> instructions executed? (calls)
 	natives map[string]int
+	skippedInit map[string]int
 	queries, sat, unsat, unknown int
 	assertQ, assertUnsat         int
 	solverTime                   time.Duration
@@ -552,7 +553,7 @@ func (p *Program) Explore(fn *ssa.Function, cfg RunConfig) *HarnessRun {
 	hr := &HarnessRun{
 		p: p, fn: fn, name: fn.Name(), ended: map[string]int{}, cuts: map[string]int{},
 		viol: map[string]*Violation{}, witness: map[string]*Witness{}, reached: map[string]int{},
-		funcs: map[string]int{}, natives: map[string]int{}, maxPaths: cfg.MaxPaths, cfg: cfg,
+		funcs: map[string]int{}, natives: map[string]int{}, skippedInit: map[string]int{}, maxPaths: cfg.MaxPaths, cfg: cfg,
 	}
 	hr.cond = sync.NewCond(&hr.mu)
 	if cfg.OnlyPrefix != nil {
